@@ -346,7 +346,7 @@ class CallsMixin:
         model = self.model_for(cls)
         if model is not None and hasattr(model, "new"):
             return model.new(self, cls, args, kwargs, fr)
-        if hasattr(cls, "__dataclass_fields__"):
+        if hasattr(cls, "__dataclass_fields__") and (cls.__module__ or "").startswith("hypercorn"):
             return self.new_dataclass(cls, args, kwargs, fr)
         if isinstance(cls, type) and issubclass(cls, enum.Enum):
             raise Unsupported("enum call")
@@ -1000,12 +1000,15 @@ class CallsMixin:
                 r = SymStr(ctx.fresh("transcoded", Str), newkind)
                 return r
             raise Unsupported(f"encoding {enc}")
-        if name == "lower":
-            return SymStr(s_lower(e), kind)
-        if name == "upper":
-            return SymStr(s_upper(e), kind)
-        if name == "strip" and not args:
-            return SymStr(s_strip(e), kind)
+        if name in ("lower", "upper", "strip") and not args:
+            f = {"lower": s_lower, "upper": s_upper, "strip": s_strip}[name]
+            emp = z3.StringVal("")
+            # the only interpreted facts: the empty string maps to itself and nothing else does
+            # (case mapping preserves length; strip of a non-blank... is NOT assumed)
+            ctx.assume(f(emp) == emp)
+            if name != "strip":
+                ctx.assume(z3.Length(f(e)) == z3.Length(e))
+            return SymStr(f(e), kind)
         if name == "startswith":
             return mk_bool(z3.PrefixOf(str_to_z3(args[0]), e))
         if name == "endswith":
